@@ -417,6 +417,7 @@ package control
 //@ func (*RoutingMatcherBuilder).addIp
 //@   requires b != nil && f != nil && outbound != nil && b.lpmDedup != nil
 //@   requires b.referencedOutbounds != nil
+//@   requires len(b.simulatedLpmTries) < 4294967296
 //@   at call appendRule#1 assert calls("builtin:append") == 1 ==> a2.lpmIndex == len(b.simulatedLpmTries) - 1 && b.simulatedLpmTries[a2.lpmIndex].$base == values.$base && len(b.simulatedLpmTries[a2.lpmIndex]) == len(values)
 //@   at call appendRule#1 assert calls("builtin:append") == 0 ==> has(b.lpmDedup, hash) && a2.lpmIndex == b.lpmDedup[hash].index
 //@   at call appendRule#1 assert calls("builtin:append") <= 1
@@ -425,6 +426,7 @@ package control
 //@ func (*RoutingMatcherBuilder).addSourceIp
 //@   requires b != nil && f != nil && outbound != nil && b.lpmDedup != nil
 //@   requires b.referencedOutbounds != nil
+//@   requires len(b.simulatedLpmTries) < 4294967296
 //@   at call appendRule#1 assert calls("builtin:append") == 1 ==> a2.lpmIndex == len(b.simulatedLpmTries) - 1 && b.simulatedLpmTries[a2.lpmIndex].$base == values.$base && len(b.simulatedLpmTries[a2.lpmIndex]) == len(values)
 //@   at call appendRule#1 assert calls("builtin:append") == 0 ==> has(b.lpmDedup, hash) && a2.lpmIndex == b.lpmDedup[hash].index
 //@   at call appendRule#1 assert calls("builtin:append") <= 1
